@@ -564,7 +564,7 @@ M('heartbeat-started-twice', ['C18'], LN, "        if self._thread and self._thr
 M('heartbeat-ignores-stop', ['C18'], LN, "        while not self._stop_event.is_set():\n            with self._lock:", "        while True:\n            with self._lock:", ['C18.R5'])
 
 # ------------------------------------------------------------------------------------------------------ C12.R6 / R7
-M('ids-multi-all-same', ['C12'], CLI, '                config.id = f"{filter_name}{i}"', '                config.id = f"{filter_name}{len(configs)}"', ['C12.R6'])
+M('ids-multi-all-same', ['C12'], CLI, '                new_id = f"{filter_name}{(i := i + 1)}"', '                new_id = f"{filter_name}{len(configs)}"', ['C12.R6'])
 M('ids-named-even-if-given', ['C12'], CLI, "        if (\n            config.id is None\n        ):  # build list of filters without id", "        if (\n            True\n        ):  # build list of filters without id", ['C12.R6'])
 M('conv-keeps-wildcard-host', ['C12'], CLI, """output = f'tcp://{"localhost" if addr in ("*", "0", "0.0.0.0") else addr}:{port}'""", """output = f'tcp://{addr}:{port}'""", ['C12.R7'])
 M('alloc-connect-port-off-by-one', ['C12'], CLI, '                    id_config.outputs = f"tcp://*:{max_port}"', '                    id_config.outputs = f"tcp://*:{max_port + 1}"', ['C12.R7', 'C12.R1'])
@@ -728,3 +728,6 @@ M('allowlist-D62-shape-empty-document', ['C16'], CF, "config = yaml.safe_load(f)
 M('zmq-D63-shape-required-ids-compared-raw', ['C06'], Z, "client_ids = set(str(client.client_id) for client in clients.values() if client.t_last >= t_min)", "client_ids = set(client.client_id for client in clients.values() if client.t_last >= t_min)", ['C06.R15'])
 M('zmq-D63-shape-required-stored-raw', ['C06'], Z, "self.outs_required = [str(o) for o in (outs_required if isinstance(outs_required, (list, tuple, set)) else [outs_required])] if outs_required else []", "self.outs_required = outs_required or []", ['C06.R15'])
 M('zmq-D64-shape-required-eph-close-spared', ['C03', 'C06'], Z, "if not client.ephemeral or str(client_id) in self.outs_required:  #", "if not client.ephemeral:  #", ['C03.R6', 'C06.R10'])
+M('cli-D65-shape-generated-ids-ignore-user-ids', ['C12'], CLI, "    used_ids = {config.id for _, config, _ in filters if config.id is not None}\n", "    used_ids = set()\n", ['C12.R6'])
+M('cli-generated-id-not-recorded', ['C12'], CLI, "            config.id = new_id\n\n            used_ids.add(new_id)\n", "            config.id = new_id\n", ['C12.R6'])
+M('cli-single-name-not-first-choice', ['C12'], CLI, "            new_id = filter_name if len(configs) == 1 else None\n", "            new_id = None\n", ['C12.R6'])
